@@ -19,7 +19,7 @@ from ..graphs import MonitoredGraph, snapshot, same_snapshot
 from ..stats import two_stage, binom_pmf
 
 ID = "C18"
-RULE = ("graphs: G(n,p) n<=60 incl. edgeless and disconnected ones, trees, cycles, complete graphs, stars, unions of components; phi on a grid "
+RULE = ("graphs: G(n,p) n<=60 (6%: 260..700 vertices) incl. edgeless and disconnected ones, trees, cycles, complete graphs, stars, unions of many components of assorted sizes in arbitrary order; phi on a grid "
         "{0, 0.05, .15, .3, .5, .7, .8, .95, 1} + random; seeded draws and scripted draws (all 0.0 / all 1-2^-53); statistical cases: star with "
         "12 leaves and two disjoint stars with 6 leaves each at phi in {.15,.5,.8}; non-trivial = >= 2 edges and 0 < phi < 1; "
         "distinct = SHA-1 of (graph, phi, schedule)")
@@ -43,10 +43,12 @@ def gen_cases(tier, seed):
 
 
 def make_graph(rng):
-    k = rng.choice(["gnp", "gnp", "gnp", "tree", "cycle", "complete", "star", "union", "edgeless", "single"])
+    k = rng.choice(["gnp", "gnp", "gnp", "tree", "cycle", "complete", "star", "union", "edgeless", "single", "manycomp"])
     n = rng.randint(1, 60)
+    if rng.random() < 0.06:
+        n = rng.randint(260, 700)        # component sizes / vertex counts beyond 255
     if k == "gnp":
-        g = nx.gnp_random_graph(n, rng.choice([0.02, 0.05, 0.1, 0.3, 0.6]), seed=rng.randrange(1 << 30))
+        g = nx.gnp_random_graph(n, rng.choice([0.02, 0.05, 0.1, 0.3, 0.6]) if n <= 60 else rng.choice([0.002, 0.004, 0.01]), seed=rng.randrange(1 << 30))
     elif k == "tree":
         g = nx.Graph(); g.add_node(0)
         for v in range(1, n):
@@ -54,12 +56,20 @@ def make_graph(rng):
     elif k == "cycle":
         g = nx.cycle_graph(max(3, n))
     elif k == "complete":
-        g = nx.complete_graph(min(n, 12))
+        g = nx.complete_graph(min(n, 12) if n <= 60 else 40)
     elif k == "star":
         g = nx.star_graph(max(1, n - 1))
     elif k == "union":
         g = nx.disjoint_union(nx.complete_graph(rng.randint(1, 6)), nx.path_graph(rng.randint(1, 10)))
         g = nx.disjoint_union(g, nx.empty_graph(rng.randint(0, 4)))
+    elif k == "manycomp":
+        # many components of assorted sizes in arbitrary order (the largest need not come first nor hold half of the vertices)
+        g = nx.Graph()
+        sizes = [rng.randint(1, 9) for _ in range(rng.randint(3, 18))]
+        nxt = 0
+        for s_ in sizes:
+            h = rng.choice([nx.complete_graph, nx.path_graph, nx.cycle_graph if s_ >= 3 else nx.path_graph])(s_)
+            g = nx.disjoint_union(g, h)
     elif k == "edgeless":
         g = nx.empty_graph(n)
     else:
